@@ -146,6 +146,9 @@ type Enc struct {
 	seqTerms   []seqAt
 	seqAbstract bool // relational mode: sequences are abstract ids, no content quantifiers
 	usesSeq    bool
+	splitOnCells bool // also case-split on branches that merge different values of local variables
+	opaqueNames map[string]bool
+	factsDone  map[string]bool
 	lastFrame  *frame
 	skipAssume map[string]bool
 	ufDecls    map[string]string
@@ -351,9 +354,19 @@ func memKey(elem types.Type, leafName string) string {
 
 func (e *Enc) byteMem(st *State) T { return e.getVar(st, "M|byte", memSort(SBV8)) }
 
+// memArr is the contents of byte array arr in state st. String constants live
+// in reserved array ids and are immutable: they are always read from the
+// entry memory, whatever happened to the memory variable since.
+func (e *Enc) memArr(st *State, arr T) T {
+	if v, ok := litVal(arr); ok && v >= 16 && v < firstDynArr {
+		return sel(e.getVar(&State{vars: map[string]T{}}, "M|byte", memSort(SBV8)), arr)
+	}
+	return sel(e.byteMem(st), arr)
+}
+
 // byteAt reads s[i] (no bounds obligation).
 func (e *Enc) byteAt(st *State, s Sl, i T) T {
-	return sel(sel(e.byteMem(st), s.Arr), add(s.Off, i))
+	return sel(e.memArr(st, s.Arr), add(s.Off, i))
 }
 
 // ------------------------------------------------------------------ memory access
@@ -899,6 +912,11 @@ func (e *Enc) mergeStates(ins []edgeIn, hint string) (T, *State) {
 		}
 		if !all {
 			v = e.nameVal(v, "m_"+k.Comment)
+			if e.splitOnCells {
+				for i := 0; i < len(ins)-1; i++ {
+					e.noteSplit(ins[i].cond)
+				}
+			}
 		}
 		out.cells[k] = v
 	}
@@ -1464,10 +1482,18 @@ func (e *Enc) strConcat(a, b Str) Val {
 	m := e.byteMem(e.cur)
 	na := e.freshT("catdata", SArr)
 	i := "(i (_ BitVec 64))"
-	e.assume(T{fmt.Sprintf("(forall (%s) (! (=> (bvult i %s) (= (select %s i) (select (select %s %s) (bvadd %s i)))) :pattern ((select %s i))))",
-		i, a.Len.S, na.S, m.S, a.Arr.S, a.Off.S, na.S), SBool})
-	e.assume(T{fmt.Sprintf("(forall (%s) (! (=> (bvult i %s) (= (select %s (bvadd %s i)) (select (select %s %s) (bvadd %s i)))) :pattern ((select %s (bvadd %s i)))))",
-		i, b.Len.S, na.S, a.Len.S, m.S, b.Arr.S, b.Off.S, na.S, a.Len.S), SBool})
+	srcA := e.constFor("cata", e.memArr(e.cur, a.Arr))
+	srcB := e.constFor("catb", e.memArr(e.cur, b.Arr))
+	e.assume(T{fmt.Sprintf("(forall (%s) (! (=> (bvult i %s) (= (select %s i) (select %s (bvadd %s i)))) :pattern ((select %s i))))",
+		i, a.Len.S, na.S, srcA.S, a.Off.S, na.S), SBool})
+	e.assume(T{fmt.Sprintf("(forall (%s) (! (=> (bvult i %s) (= (select %s (bvadd %s i)) (select %s (bvadd %s i)))) :pattern ((select %s (bvadd %s i)))))",
+		i, b.Len.S, na.S, a.Len.S, srcB.S, b.Off.S, na.S, a.Len.S), SBool})
+	// a constant prefix is known byte by byte (no quantifier instantiation needed)
+	if k, ok := litVal(a.Len); ok && k <= 32 {
+		for j := uint64(0); j < k; j++ {
+			e.assume(eq(sel(na, bv64(j)), sel(srcA, add(a.Off, bv64(j)))))
+		}
+	}
 	e.setVarAt("M|byte", arr, store(m, arr, na))
 	return Str{Arr: arr, Off: bv64(0), Len: e.def("catlen", add(a.Len, b.Len))}
 }
